@@ -143,7 +143,10 @@ impl ParsedParameters {
         // if 'ellps' was explicitly given, it will override 'ellps_0'. But 'ellps' is
         // always present (as a default, if nothing else), so an explicitly given
         // 'ellps_0' must only yield to an explicitly given 'ellps'
-        let explicit_ellps_0 = self.given.contains_key("ellps_0") && !self.given.contains_key("ellps");
+        // (and 'ellps_0' means nothing to an operator not having it in its gamut)
+        let explicit_ellps_0 = self.text.contains_key("ellps_0")
+            && self.given.contains_key("ellps_0")
+            && !self.given.contains_key("ellps");
         if index == 0 && !explicit_ellps_0 {
             if let Some(e) = self.text.get("ellps") {
                 return Ellipsoid::named(e).unwrap();
@@ -411,7 +414,15 @@ impl ParsedParameters {
         // Params explicitly set to the default value
         // let mut redundant = BTreeSet::<String>::new();
         // Params specified, but not used
-        let given = locals.clone();
+        // What was given: the parameters of the step itself, and the ones forwarded
+        // from an enclosing macro. An 'ellps' among the globals does not count, since
+        // every context provides that as a default
+        let mut given = locals.clone();
+        for (key, value) in globals {
+            if key != "ellps" && !given.contains_key(key) {
+                given.insert(key.clone(), value.clone());
+            }
+        }
         let ignored: Vec<String> = locals.into_keys().collect();
         Ok(ParsedParameters {
             name,
